@@ -225,3 +225,44 @@ def alias_class(cls_short, mode):
             if mode == "off" and f"{q}zz9{q}" in sql:
                 return f"{label}.as_('zz9') in an operand position ({cname}, with_alias=False) renders {sql!r}: alias printed"
     return None
+
+
+def ns_decision(cls_short, fname, rk):
+    """C11: statements whose clause at (fname, rk) is qualified differently from the rule"""
+    from . import Table, fn
+    t, u = Table("t"), Table("u")
+    out = []
+    for qc in QUERY_CLASSES:
+        b = type(qc._builder())
+        if (b.__module__ + "." + b.__qualname__).replace("pypika_tortoise.", "") != cls_short:
+            continue
+        if fname == "_returning_sql":
+            q = qc.update(t).set(t.a, 1).where(t.b == 2).returning(t.a)
+            sql = str(q)
+            if '"t"."a"' in sql.split("RETURNING")[1]:
+                return f"{qc.__name__}.update(t).set(t.a,1).where(t.b==2).returning(t.a) -> {sql!r}: one row source in scope but RETURNING is qualified"
+        if fname in ("_orderby_sql", "_limit_sql"):
+            q = qc.update(t).join(u).on(t.id == u.tid).set(t.a, 1).orderby(t.a)
+            sql = str(q)
+            tail = sql.split("ORDER BY")[-1] if "ORDER BY" in sql else ""
+            if tail and "." not in tail:
+                return f"{qc.__name__}.update(t).join(u)...orderby(t.a) -> {sql!r}: two row sources but ORDER BY column is bare"
+    return None
+
+
+def foreign_flag(cls_short, method):
+    """C11: a criterion on a foreign table followed by a criterion on the statement's own table"""
+    from . import Table, fn
+    items, orders = Table("items"), Table("orders")
+    for qc in QUERY_CLASSES:
+        b = type(qc._builder())
+        if (b.__module__ + "." + b.__qualname__).replace("pypika_tortoise.", "") != cls_short:
+            continue
+        q = qc.from_(items).select(fn.Count("*"))
+        q1 = getattr(q, method)(items.order_id == orders.id)
+        q2 = getattr(q1, method)(items.qty > 0)
+        s1, s2 = str(q1), str(q2)
+        qc_ = qc.SQL_CONTEXT.quote_char
+        if f"{qc_}items{qc_}.{qc_}order_id{qc_}" in s1 and f"{qc_}items{qc_}.{qc_}order_id{qc_}" not in s2:
+            return f"{qc.__name__}: {method}(items.order_id == orders.id) renders {s1!r}; adding {method}(items.qty > 0) renders {s2!r}: qualification lost"
+    return None
